@@ -101,7 +101,7 @@ def jv(v):
         return "(JStr %s)" % S(v.get("s", ""))
     if t == "i":
         return "(JInt %s)" % Z(int(v["i"]))
-    if t == "f":
+    if t in ("f", "n"):     # a JSON number that is not an integer literal (f: 1.5, n: the text in "s": exponent / fraction forms)
         return "JFloat"
     if t == "b":
         return "(JBool %s)" % ("true" if v.get("b") else "false")
@@ -220,7 +220,8 @@ QUIRKS = {0: "OTLP list-valued attributes yield no tag rows (fixed defect otlp-l
           1: "Zipkin remoteEndpoint service name overrides the local one (fixed defect zipkin-remote-service-inverted)",
           2: "NDJSON framing keeps decoder state across lines / stores no payload (fixed defect zipkin-ndjson-state)",
           3: "read path prefers peer.service and rewrites service.name (fixed defect otlp-read-peer-service)",
-          4: "read path takes a Zipkin parent only from a 16-digit payload parentId (fixed defect zipkin-short-parent-id)"}
+          4: "read path takes a Zipkin parent only from a 16-digit payload parentId (fixed defect zipkin-short-parent-id)",
+          5: "Zipkin microseconds * 1000 wrap around int64 instead of being refused (fixed defect zipkin-time-overflow)"}
 
 
 SEG = {0: "one Read over the whole body", 1: "one byte per Read", 2: "1..1500 bytes per Read", 3: "1..64 bytes per Read"}
